@@ -20,7 +20,7 @@ import (
 
 // C15 — outgoing messages are well-formed, schema-ordered and faithful to configuration.
 
-var c15Alphabet = []string{"plain", "", "a&b", "<x>", `"q"`, "'a'", " lead trail ", "ünï日本😀", "a\tb", "a\nb", "a\rb", "]]>", "--", `"><evil xmlns="urn:x"/><!--`, `<evil xmlns="urn:x">payload</evil>`, "&#13;&lt;"}
+var c15Alphabet = []string{"plain", "", "a&b", "<x>", `"q"`, "'a'", " lead trail ", "ünï日本😀", "a\tb", "a\nb", "a\rb", "]]>", "--", `"><evil xmlns="urn:x"/><!--`, `<evil xmlns="urn:x">payload</evil>`, "&#13;&lt;", strings.Repeat("long-é&<-", 500)}
 
 var c15Clocks = []struct {
 	Name string
@@ -536,7 +536,7 @@ func c15Run(r *mc.Run) {
 	if r.Thorough() {
 		bound = 3
 	}
-	r.Rule = "full product of kind(3) x signed builder(2) x ForceAuthn x IsPassive x RequestedAuthnContext(4) x NameID format empty x SP issuer empty x string/document builder, plus every combination of <=2 (quick) / <=3 (thorough) deviations over 12 string inputs (16-value special-character alphabet: markup, quotes, whitespace incl. TAB/LF/CR, non-ASCII, ]]>, --, an element-injection payload) and 5 clocks, for 3 kinds x signed/unsigned; oracle = encoding/xml token walk: root, exact attribute set, schema order, exact values, element counts, Signature right after Issuer, no raw CR / attribute TAB,LF; each case is followed by a second call on the same instance one clock step later with other arguments, which must follow that call; non-trivial = the builder returned a document that was parsed and compared; distinct = distinct case"
+	r.Rule = "full product of kind(3) x signed builder(2) x ForceAuthn x IsPassive x RequestedAuthnContext(4) x NameID format empty x SP issuer empty x string/document builder, plus every combination of <=2 (quick) / <=3 (thorough) deviations over 12 string inputs (17-value special-character alphabet: markup, quotes, whitespace incl. TAB/LF/CR, non-ASCII, ]]>, --, an element-injection payload) and 5 clocks, for 3 kinds x signed/unsigned; oracle = encoding/xml token walk: root, exact attribute set, schema order, exact values, element counts, Signature right after Issuer, no raw CR / attribute TAB,LF; each case is followed by a second call on the same instance one clock step later with other arguments, which must follow that call; non-trivial = the builder returned a document that was parsed and compared; distinct = distinct case"
 	r.Set("string_deviation_bound", bound)
 	cases := c15Cases(r, bound)
 	r.State(len(cases))
